@@ -342,21 +342,22 @@ Definition register (st : N * rmap) (s : str) : N * rmap :=
   let '(gen, m) := st in
   if rmap_mem s m then st else (gen + 1, m ++ [(s, key_of (gen + 1) s)]).
 
-(* names.iter().find_map(|(key, string)| (string == instance_name).then_some(key.name_id)) *)
-Definition first_hit (nm : names) (s : str) : option N :=
-  match find (fun e => str_eqb (snd e) s) nm with Some e => Some (fst (fst e)) | None => None end.
-
+(* names.iter().any(|(key, string)| string == instance_name && (key.name_id == 2 || key.name_id == 17)) *)
 Definition reuses_subfamily (nm : names) (s : str) : bool :=
-  match first_hit nm s with Some id => (id =? 2) || (id =? 17) | None => false end.
+  existsb (fun e => str_eqb (snd e) s && ((fst (fst e) =? 2) || (fst (fst e) =? 17))) nm.
 
 Definition reg_inst (nm : names) (axes : list axis) (st : N * rmap) (i : inst) : N * rmap :=
   let st1 := if is_default axes i && reuses_subfamily nm (i_name i) then st else register st (i_name i) in
   match i_ps i with Some p => register st1 p | None => st1 end.
 
-(* the content of reusable_names when registration is over *)
+(* names.keys().map(|key| key.name_id).fold(255, max) *)
+Definition max_name_id (nm : names) : N := fold_left (fun m e => N.max m (fst (fst e))) nm 255.
+
+(* the content of reusable_names when registration is over; name_id_gen starts at the
+   largest id the source already uses *)
 Definition alloc (nm : names) (axes : list axis) (insts : list inst) : rmap :=
   snd (fold_left (reg_inst nm axes) (kept_instances axes insts)
-         (fold_left register (map a_label (variable_axes axes)) (255, reusable0 nm))).
+         (fold_left register (map a_label (variable_axes axes)) (max_name_id nm, reusable0 nm))).
 
 (* names.extend(reusable_names.into_iter().map(|(string, key)| (key, string)));
    `rp` is reusable_names in ITS iteration order *)
@@ -376,9 +377,13 @@ Fixpoint min_list (l : list N) : option N :=
   | x :: t => match min_list t with Some m => Some (N.min x m) | None => Some x end
   end.
 
+(* ids >= 256 always; the subfamily ids 2 / 17 only where the caller allows them *)
+Definition id_allowed (allow_subfamily : bool) (id : N) : bool :=
+  (256 <=? id) || (allow_subfamily && ((id =? 2) || (id =? 17))).
+
 (* reusable_name_id: first id of the sorted set that is allowed; None = the unwrap() panics *)
-Definition reusable_name_id (nm : names) (s : str) (allow_reserved : bool) : option N :=
-  min_list (filter (fun id => allow_reserved || (256 <=? id)) (ids_of nm s)).
+Definition reusable_name_id (nm : names) (s : str) (allow_subfamily : bool) : option N :=
+  min_list (filter (id_allowed allow_subfamily) (ids_of nm s)).
 
 Definition fvar_axis_ids (nm : names) (axes : list axis) : list (option N) :=
   map (fun a => reusable_name_id nm (a_label a) false) (variable_axes axes).
@@ -482,21 +487,17 @@ Definition adjust_id (offset id : N) : N :=
   if (id =? 0xFFFF) || (id <=? 255) then id
   else if id + offset <=? LAST_ALLOWED then id + offset else LAST_ALLOWED.
 
-Definition sat_add16 (a b : N) : N := N.min (a + b) 0xFFFF.
-
 Definition remap (first_avail : N) (recs : list frec) (r : fea_refs) : list frec * fea_refs :=
   let offset := first_avail - 256 in   (* saturating_sub; N subtraction truncates at 0 *)
   if offset =? 0 then (recs, r)
   else
     (map (fun e => let '((p, en, l, id), s) := e in ((p, en, l, adjust_id offset id), s)) recs,
      {| r_adj := map (adjust_id offset) (r_adj r);
-        r_size := r_size r;                                  (* FeatureParams::Size is not matched *)
-        r_elided := option_map (fun id => sat_add16 id offset) (r_elided r);
+        r_size := map (adjust_id offset) (r_size r);
+        r_elided := option_map (adjust_id offset) (r_elided r);
         r_all := r_all r |}).
 
 (* features.rs: only when the FEA produced a name table, and only past the reserved range *)
-Definition max_name_id (nm : names) : N := fold_left (fun m e => N.max m (fst (fst e))) nm 255.
-
 Definition fea_remapped (nm : names) (b : fnb) (r : fea_refs) : option (list frec) * fea_refs :=
   match fnb_build b with
   | None => (None, r)
@@ -557,25 +558,6 @@ Definition nrec_eqb (a b : nkey * str) : bool := nkey_eqb (fst a) (fst b) && str
 Definition same_names (a b : names) : bool :=
   Nat.eqb (length a) (length b)
   && forallb (fun x => existsb (nrec_eqb x) b) a && forallb (fun x => existsb (nrec_eqb x) a) b.
-
-Fixpoint rotations_aux (n : nat) (l : names) : list names :=
-  match n with
-  | O => []
-  | S k => l :: match l with [] => [] | x :: t => rotations_aux k (t ++ [x]) end
-  end.
-(* every entry comes first in one of these orders *)
-Definition rotations (l : names) : list names := match l with [] => [[]] | _ => rotations_aux (length l) l end.
-
-Fixpoint insert_all {A} (x : A) (l : list A) : list (list A) :=
-  match l with
-  | [] => [[x]]
-  | y :: t => (x :: l) :: map (cons y) (insert_all x t)
-  end.
-Fixpoint perms {A} (l : list A) : list (list A) :=
-  match l with
-  | [] => [[]]
-  | x :: t => flat_map (insert_all x) (perms t)
-  end.
 
 Definition opt_n_eqb (a b : option N) : bool :=
   match a, b with Some x, Some y => x =? y | None, None => true | _, _ => false end.
@@ -641,21 +623,13 @@ Definition font_agrees_with (nm : names) (rp : rmap) (axes : list axis) (insts :
       && opt_n_eqb (r_elided r') (o_elided o)
   end.
 
-(* `rot`: a default-instance name occurs under several reserved ids, so the result
-   depends on the iteration order of the source map; `prm`: the source supplies ids
-   above 255, so it depends on the iteration order of reusable_names as well.  Then
-   SOME iteration order must explain the font. *)
-Definition font_agrees (rot prm : bool) (adds : list (N * str)) (major : Z) (minor : N) (vendor : str)
+(* the result no longer depends on an iteration order: one evaluation *)
+Definition font_agrees (adds : list (N * str)) (major : Z) (minor : N) (vendor : str)
     (axes : list axis) (insts : list inst) (prog : list (gkind * list nspec))
     (version : option str) (o : observed) : bool :=
   let nm := nb_run adds major minor vendor in
-  existsb (fun nm' =>
-             let rp := alloc nm' axes insts in
-             existsb (fun rp' => font_agrees_with nm' rp' axes insts prog version o)
-               (if prm then perms rp else [rp]))
-    (if rot then rotations nm else [nm]).
+  font_agrees_with nm (alloc nm axes insts) axes insts prog version o.
 
 (* StaticMetadata::new alone: `nm` is the input map in its observed iteration order *)
-Definition alloc_agrees (multi : bool) (nm : names) (axes : list axis) (insts : list inst) (out : names) : bool :=
-  let rp := alloc nm axes insts in
-  existsb (fun rp' => same_names (extend nm rp') out) (if multi then perms rp else [rp]).
+Definition alloc_agrees (nm : names) (axes : list axis) (insts : list inst) (out : names) : bool :=
+  same_names (extend nm (alloc nm axes insts)) out.
